@@ -85,6 +85,10 @@ def build(ch, client=None, max_frames=14, big_frames=False):
         pending_frame_size = v
     else:
         pending_frame_size = None
+    if ch.chance(40):
+        # the endpoint changes its INITIAL_WINDOW_SIZE; the peer's ACK for it comes somewhere in the stream
+        sc.prefix.append(('update_settings', ({wire.S_INITIAL_WINDOW_SIZE: ch.pick([30000, 1000, 100000, 100, 40])},), {}))
+        sc.labels.add('local-initial-window-size-changed')
     conn_win = 65535
     streams = {}      # sid -> dict(state, win)
     if sc.client:
